@@ -94,3 +94,18 @@ CHECKS["C20"] = {
         {"pkg": "gbnprop", "run": "TestC20TimeoutModel", "checks": (40000, 600000), "shards": (1, 8), "timeout": (600, 3600)},
     ],
 }
+
+CHECKS["C13"] = {
+    "level": "exploration",
+    "rule": ("rapid-generated scenarios in virtual time. Dead peer: N in {1,2,3,5,20,254}, static/adaptive resend, keepalive on one or both ends with ping/pong from {5s/3s, 7s/3s, 1s/0.5s, 0.3s/0.1s, 2s/1s, 0.1s/0.05s}, "
+             "bursts of k messages (k from 0 to N+3) on either side starting at a drawn offset, both directions go silent at a drawn instant chosen around those offsets (idle, mid-burst, window full, during a resend/sync wait). "
+             "Oracle: every keepalive-enabled endpoint's Recv fails within ping+pong+8*resendTimeout(hook, re-read as it grows)+1s and its later Send fails. "
+             "Live peer: healthy link with round trip <= min(pong)-1ms (and below the resend/handshake timeouts), 1-4 phases of idle (0 .. 500 ping intervals, offsets -1/0/+1ms) followed by a burst; "
+             "oracle: no call fails, no FIN on the wire, every message sent after an idle period is delivered within 60s. "
+             "Non-trivial: data was outstanding when the silence began, or total idle time > 10 ping intervals; distinct by scenario."),
+    "assumptions": ["bounded detection time 8*resend accounts for two sync waits (3*resend each) around ping and pong", "transport model vnet.Link"],
+    "units": [
+        {"pkg": "gbnprop", "run": "TestC13DeadPeer", "checks": (2500, 30000), "shards": (1, 8), "timeout": (900, 5400), "gomaxprocs": [16, 1, 2, 4]},
+        {"pkg": "gbnprop", "run": "TestC13LivePeer", "checks": (1200, 12000), "shards": (1, 8), "timeout": (900, 5400), "gomaxprocs": [16, 1, 2, 4]},
+    ],
+}
